@@ -735,6 +735,23 @@ func propC04(w *World, r *Report) {
 	r.Check(limTerm == leafTrigger, "S4", "trigger limit is ThermalMotion.TriggerFrames", "-", "limit field "+lim+" <- "+limTerm)
 	r.Check(relationOn(roles.TrigLabel, roles.Trig, 1) == "<" || relationOn(roles.TrigLabel, roles.Trig, 0) == "<", "S4", "refusal is strict: counter < trigger-frames", "-", cl.Raw)
 	checkDiskGate(w, r)
+	// S7: the window that is consulted is the configured one
+	{
+		ce := newTermEnv(w)
+		ci := ce.useCtor(c.T, c.Ctor)
+		got := "<unset>"
+		if t := ci.Stores[runs.model.winFld]; t != nil {
+			got = t.String()
+		}
+		r.Check(got == "recorder.RecorderConfig.Window@param:recorder.RecorderConfig" && !ci.Mutable[runs.model.winFld], "S7", "the processor consults the recording window of its recorder configuration (never reassigned)", w.Pos(c.Ctor.Pos()), got)
+		if nc := w.Func("recorder", "NewConfig"); nc != nil {
+			ws := storesInto(w, newTermEnv(w), nc, modPath+"/recorder", "RecorderConfig")["Window"]
+			okW := len(ws) == 1 && strings.Contains(ws[0], "window.New(config.Windows.StartRecording@alloc:config.Windows, config.Windows.StopRecording@alloc:config.Windows, config.Location.Latitude@alloc:config.Location, config.Location.Longitude@alloc:config.Location)")
+			r.Check(okW, "S7", "the window is built from windows.start-recording, windows.stop-recording (in this order) and the location", w.Pos(nc.Pos()), strings.Join(ws, " | "))
+		} else {
+			r.Unknown("S7", "recorder.NewConfig", "-", "not found")
+		}
+	}
 }
 
 // S5 / S6
